@@ -124,6 +124,10 @@ func Witnesses() []Case {
 			Script: []Item{hdr, adv(AdvItem{NS: 3, Loc: 1, Req: true}, AdvItem{NS: 4, Loc: 1, Req: true})}, Fault: "-"},
 		{St0: Received, Cfg: []Beh{func() Beh { m := f(3); m.Mask = Ready; m.ListReq = true; return m }(), func() Beh { m := f(4); m.ListReq = true; return m }()},
 			Script: []Item{hdr, {Kind: 'E', NS: 3, Loc: 1, Payload: true}}, Fault: "-"},
+		// an unknown sibling that shares the namespace of an advertised, configured feature (e.g. a
+		// second element in the SASL namespace): the data Parse returned must still reach Negotiate
+		{Cfg: []Beh{func() Beh { m := f(2); m.ListReq = true; m.Mask = Ready; return m }()},
+			Script: []Item{hdr, adv(AdvItem{NS: 2, Loc: 1, Req: true}, AdvItem{NS: 2, Loc: 9})}, Fault: "-"},
 		// two configured features of one namespace: the informational one takes the cache slot
 		// of the mandatory one (theorem C01_shared_ns_shadows_mandatory; documented limit)
 		{Cfg: []Beh{{NS: 2, Loc: 1, Negotiable: true, ListReq: true}, {NS: 2, Loc: 2}},
